@@ -6,7 +6,8 @@ non-template entity).  The observation contains the findings AND the value-flow 
 values per token from --dump, projected to abstract positions).  Findings and facts located inside the definition of the
 expanded entity are not compared (the spec's Compared), ids about the construct itself are exempt (the spec's table).
 
-TLC enumerates the histories (expansions mixed with Whitespace, RenameLocals, CommentLines so that an expansion must also be
+TLC model-checks the action property on the abstract analyzer of Rewrite.tla (holds with the table, fails without it and
+for an analyzer whose alias expansion loses `unsigned`), enumerates the histories (expansions mixed with Whitespace, RenameLocals, CommentLines so that an expansion must also be
 transparent in another layout / spelling), drivers/rewrite_c06.py generates programs that use the entity in initialisers,
 conditions, array indices, call arguments, member access, sizeof and casts, the hooked cppcheck analyses both forms, TLC
 judges every step.  The macro expansions computed by the generator are cross-checked against `gcc -E -P`.
@@ -104,15 +105,18 @@ def main(tier, seed, replay=None):
         print("replay: transparent")
         return 0
     T = TIERS[tier]
+    pool = concurrent.futures.ThreadPoolExecutor(max_workers=2)
+    model_futs = rr.model_check_async(pool, 2 if tier == "quick" else 3, PID)
     hists = rr.tlc_histories(PID, 3)
     progs = rewrite_c06.corpus(seed, T["programs"], vlib.REPO)
     nexp, badexp = check_expansions(progs)
     if badexp:
         raise vlib.InfraError("%d of %d macro expansions of the generator disagree with gcc -E -P" % (badexp, nexp))
     violations = []
-    tot = {"runs": 0, "steps": 0, "steps_text_changed": 0, "findings_base": 0, "facts_base": 0, "ids": {}, "sev": {}, "witness_runs": 0, "witness_ok": 0}
+    tot = {"runs": 0, "steps": 0, "steps_text_changed": 0, "findings_base": 0, "facts_base": 0, "ids": {}, "sev": {}, "witness_runs": 0, "witness_ok": 0, "distinct_pairs": 0}
     judged = 0
     driver_bad = []
+    run_samples = []
     per_kind = {}
     for b0 in range(0, len(progs), T["batch"]):
         batch = progs[b0:b0 + T["batch"]]
@@ -131,23 +135,27 @@ def main(tier, seed, replay=None):
         judged += n
         driver_bad += drv
         violations += violations_of(dev, index, batch)
-        for k in ("runs", "steps", "steps_text_changed", "findings_base", "facts_base", "witness_runs", "witness_ok"):
+        for k in ("runs", "steps", "steps_text_changed", "findings_base", "facts_base", "witness_runs", "witness_ok", "distinct_pairs"):
             tot[k] += stats[k]
+        if len(run_samples) < 2:
+            run_samples += stats["samples"][:2 - len(run_samples)]
         for k in ("ids", "sev"):
             for a, c in stats[k].items():
                 tot[k][a] = tot[k].get(a, 0) + c
     if driver_bad:
         raise vlib.InfraError("the driver did not follow Rewrite.tla (not a cppcheck finding): %s" % json.dumps(driver_bad[:5]))
+    models = [f.result() for f in model_futs]
+    pool.shutdown()
     rc_, new, known = vlib.verdict(PID, violations)
-    cov = {"evaluations": judged, "distinct_nontrivial": tot["steps_text_changed"],
+    cov = {"evaluations": judged, "states": sum(m["distinct"] for m in models), "distinct_nontrivial": tot["distinct_pairs"], "steps_with_changed_text": tot["steps_text_changed"],
            "rule": "one evaluation per judged history step (observation = findings + known value-flow values, before / after one "
-                   "rewrite); non-trivial = the rewrite changed the rendered text",
+                   "rewrite); distinct non-trivial = distinct (program, language, rewrite kind, text before, text after) with different texts",
            "exhaustive": False, "programs": len(progs), "histories_enumerated_by_tlc": len(hists), "histories_per_kind": per_kind,
            "cppcheck_runs": tot["runs"], "findings_in_base_renderings": tot["findings_base"], "valueflow_facts_in_base_renderings": tot["facts_base"],
            "distinct_ids": len(tot["ids"]), "ids": tot["ids"], "severities": tot["sev"],
            "macro_expansions_checked_with_gcc": nexp, "second_witness_runs": tot["witness_runs"], "second_witness_accepts": tot["witness_ok"],
            "deviation_classes": len(violations), "known": known,
-           "samples": [{"program": p["name"], "origin": p["origin"]} for p in progs[:4]] + [{"history": hists[len(hists) // 2]}]}
+           "samples": run_samples + models + [{"program": p["name"], "origin": p["origin"]} for p in progs[:4]] + [{"history": hists[len(hists) // 2]}]}
     vlib.write_evidence(PID, tier, seed, "exploration", cov, time.time() - t0, violations=new,
                         assumptions=["the two forms of a program are equivalent by construction (generator writes both) and both are accepted by "
                                      "gcc/g++ -fsyntax-only; macro expansions agree with gcc -E -P",
